@@ -107,7 +107,8 @@ def render_call(plan, only=None):
 
 _CPY_CLASS = [
     (re.compile(r"missing \d+ required (positional|keyword-only) argument"), "missing-parameter"),
-    (re.compile(r"takes (from )?\d+( to \d+)? positional arguments? but \d+ (was|were) given"), "wrong-arg-count"),
+    (re.compile(r"takes (from )?\d+( to \d+)? positional arguments? but \d+ "
+                r"(positional arguments? \(and \d+ keyword-only arguments?\) )?(was|were) given"), "wrong-arg-count"),
     (re.compile(r"got an unexpected keyword argument"), "wrong-keyword-args"),
     (re.compile(r"got multiple values for argument"), "duplicate-keyword-argument"),
     (re.compile(r"object is not callable"), "not-callable"),
@@ -178,19 +179,27 @@ def _offsets(src):
 
 
 def _tokens(src):
-  """(type, start offset, end offset, first on its line?) of the real tokens; tolerant of errors.
-  Lines are CPython's lines (split at "\\n"): the exotic characters are not line breaks."""
+  """(type, start offset, end offset, first on its line?, inside an f-string?) of the real tokens;
+  tolerant of errors.  Lines are CPython's lines (split at "\n"): the exotic characters are not
+  line breaks.  A boundary inside an f-string (before its literal parts, inside its replacement
+  fields) is part of a string literal, not a token boundary of the program."""
   off = _offsets(src)
   out = []
   last_line = 0
+  depth = 0
   try:
     for t in tokenize.generate_tokens(io.StringIO(src).readline):
       if t.type in (tokenize.ENDMARKER, tokenize.NEWLINE, tokenize.NL, tokenize.INDENT, tokenize.DEDENT):
         continue
       s = off[t.start[0] - 1] + t.start[1]
       e = off[t.end[0] - 1] + t.end[1]
+      inside = depth > 0
+      if t.type == tokenize.FSTRING_START:
+        depth += 1
+      elif t.type == tokenize.FSTRING_END:
+        depth -= 1
       if e > s:
-        out.append((t.type, s, e, t.start[0] != last_line))
+        out.append((t.type, s, e, t.start[0] != last_line, inside))
         last_line = t.start[0]
   except (tokenize.TokenError, IndentationError, SyntaxError, SystemError, IndexError):
     pass
@@ -203,7 +212,7 @@ def _candidates(src, place, lo, hi):
   "comment" (the middle of a comment), among the tokens inside [lo, hi)."""
   toks = [t for t in _tokens(src) if lo <= t[1] and t[2] <= hi]
   if place == "token":
-    return [t[1] for t in toks if not t[3] and t[0] != tokenize.COMMENT]
+    return [t[1] for t in toks if not t[3] and not t[4] and t[0] != tokenize.COMMENT]
   if place == "string":
     return [t[1] + (t[2] - t[1]) // 2 for t in toks if t[0] == tokenize.STRING and t[2] - t[1] >= 4
             and "\\" not in src[t[1]:t[2]] and src[t[1]] in "'\""]
